@@ -127,6 +127,10 @@ func (c *Ctx) EvalN(key string, n int64) {
 // Count adds to a named counter reported in the evidence.
 func (c *Ctx) Count(name string, n int64) { c.rep.Counters[name] += n }
 
+// Member adds a member to a named set; the evidence reports the number of distinct members over
+// all workers under that name.
+func (c *Ctx) Member(set, member string) { c.rep.Counters["set:"+set+":"+member] = 1 }
+
 // Max records the maximum of a named quantity.
 func (c *Ctx) Max(name string, v int64) {
 	if v > c.rep.Maxima[name] {
@@ -587,7 +591,16 @@ func ParentMain(id, tier string) int {
 	if len(notes) > 0 {
 		cov["notes"] = notes
 	}
+	setSizes := map[string]int64{}
 	for k, v := range counters {
+		if strings.HasPrefix(k, "set:") {
+			parts := strings.SplitN(k, ":", 3)
+			setSizes[parts[1]]++
+			continue
+		}
+		cov[k] = v
+	}
+	for k, v := range setSizes {
 		cov[k] = v
 	}
 	for k, v := range maxima {
